@@ -219,6 +219,15 @@ func (l *Link) Close() error {
 	return nil
 }
 
+func (l *Link) closeNoYield() {
+	l.W.mu.Lock()
+	defer l.W.mu.Unlock()
+	if !l.eof {
+		l.eof = true
+		l.signalLocked()
+	}
+}
+
 // CloseRead makes pending and future reads fail and future writes return EPIPE.
 func (l *Link) CloseRead() {
 	l.W.mu.Lock()
@@ -379,11 +388,26 @@ func (l *Listener) Accept() (net.Conn, error) {
 func (l *Listener) Close() error {
 	Yield("lclose")
 	l.w.mu.Lock()
-	defer l.w.mu.Unlock()
+	var queued []*Conn
 	if !l.isDone {
 		l.isDone = true
 		close(l.closed)
 		delete(l.w.NetPorts, l.port)
+		// connections still waiting in the accept queue are reset, as a kernel does when the listening
+		// socket goes away
+		for more := true; more; {
+			select {
+			case c := <-l.q:
+				queued = append(queued, c)
+			default:
+				more = false
+			}
+		}
+	}
+	l.w.mu.Unlock()
+	for _, c := range queued {
+		c.Wr.closeNoYield()
+		c.R.CloseRead()
 	}
 	return nil
 }
@@ -393,6 +417,7 @@ func (l *Listener) Port() int      { return l.port }
 
 type Conn struct {
 	R, Wr  *Link
+	Owner  *Proc // the process holding this end (nil: nobody in particular, e.g. a scripted attacker)
 	Name   string
 	local  net.Addr
 	remote net.Addr
@@ -411,6 +436,40 @@ func (c *Conn) RemoteAddr() net.Addr               { return c.remote }
 func (c *Conn) SetDeadline(t time.Time) error      { return nil }
 func (c *Conn) SetReadDeadline(t time.Time) error  { return nil }
 func (c *Conn) SetWriteDeadline(t time.Time) error { return nil }
+
+// closeListenersOf: a process that is gone no longer listens (its ports refuse connections, what waited in
+// its accept queues is reset). Called without yielding: it is the kernel's doing, not the process's.
+func (w *World) closeListenersOf(p *Proc) {
+	w.mu.Lock()
+	var queued []*Conn
+	for port, l := range w.NetPorts {
+		if l.Owner != p || l.isDone {
+			continue
+		}
+		l.isDone = true
+		close(l.closed)
+		delete(w.NetPorts, port)
+		for more := true; more; {
+			select {
+			case c := <-l.q:
+				queued = append(queued, c)
+			default:
+				more = false
+			}
+		}
+	}
+	// ... and every connection the process held is closed with it
+	for _, c := range w.conns {
+		if c.Owner == p {
+			queued = append(queued, c)
+		}
+	}
+	w.mu.Unlock()
+	for _, c := range queued {
+		c.Wr.closeNoYield()
+		c.R.CloseRead()
+	}
+}
 
 // ListenerOf returns the open listener owned by process p (nil if none).
 func (w *World) ListenerOf(p *Proc) *Listener {
@@ -452,6 +511,11 @@ func (w *World) DialHost(host *Proc, port int, name string, cfg func(l *Link)) *
 	cl := &Conn{R: b2a, Wr: a2b, Name: name + ".c", local: la, remote: lb}
 	sv := &Conn{R: a2b, Wr: b2a, Name: name + ".s", local: lb, remote: la}
 	cl.Peer, sv.Peer = sv, cl
+	sv.Owner = ln.Owner
+	cl.Owner = curProc()
+	w.mu.Lock()
+	w.conns = append(w.conns, cl, sv)
+	w.mu.Unlock()
 	select {
 	case <-ln.closed:
 		return nil
